@@ -2,7 +2,8 @@
 from ..props_common import ASSUME_COMMON
 
 _WRAP = ["-Wl,--wrap=read", "-Wl,--wrap=pread", "-Wl,--wrap=pread64", "-Wl,--wrap=close",
-         "-Wl,--wrap=write", "-Wl,--wrap=pwrite", "-Wl,--wrap=pwrite64", "-Wl,--wrap=writev"]
+         "-Wl,--wrap=write", "-Wl,--wrap=pwrite", "-Wl,--wrap=pwrite64", "-Wl,--wrap=writev",
+         "-Wl,--wrap=fstat", "-Wl,--wrap=fstat64", "-Wl,--wrap=stat", "-Wl,--wrap=stat64"]
 
 SPEC = {
     "level": "fault_enumeration",
@@ -34,7 +35,12 @@ SPEC = {
             "block on a staggered pipe. Outcome must be an exception or the complete data. Write side: save_file x 12 sizes x "
             "interposed write plans (first write {1,n-1,n/2,4096,ENOSPC,EIO,EINTR,F} x second {F,1,ENOSPC,EINTR}), writex/pwritex on "
             "a registered descriptor, save_file to /dev/full, save_file in a forked child under a real RLIMIT_FSIZE (SIGXFSZ "
-            "ignored) with the cut inside the last 4096-byte block or earlier: a normal return requires file == data. load_file(save_file(d)) for sizes 0..300, "
+            "ignored) with the cut inside the last 4096-byte block or earlier: a normal return requires file == data. LYING METADATA: read_all(fd)/read_all(fopen)/load_file/"
+            "fgets loop on real procfs files of a forked, SIGSTOPped child that mmapped 150..850 unmergeable regions "
+            "(/proc/<pid>/maps > 3 pages, st_size 0, about one page per read()), smaps, status, environ, /proc/cpuinfo, compared with "
+            "the harness' own read()-until-0 loop taken before and after (exact when both agree, digits-normalised otherwise); "
+            "interposed fstat/stat reporting st_size in {0,n-1,n/2,n,n+1,2n,n+16384} for a file of n in {0,1,100,4096,5000,16384,"
+            "20000,70000} bytes x 4 read plans while read() delivers the true bytes: true bytes or an exception. load_file(save_file(d)) for sizes 0..300, "
             "2^k+-2, random to 200 KiB (+5 short-read plans each: equal or throw); list_directory/list_directory_sorted vs created "
             "names (0..700/4000 entries, odd/hidden/255-byte names, files/dirs/symlinks/fifos); unlink(recursive) on random trees "
             "(<=200 nodes, depth<=6) beside sentinel siblings; dirname/basename over every string over {'/','a','.',NUL} up to "
@@ -90,6 +96,12 @@ SPEC = {
         "read_all_fd:signal-pipe:*", "read_all_file:signal-pipe:*", "fgets:signal-pipe:*", "freadx:signal-pipe:*",
         "save_file:write-plan:write-disturbed:throw", "load_save:write-plan:write-undisturbed:ok", "writex:write-plan:*", "pwritex:write-plan:*",
         "save_file:dev-full:throw", "save_file:rlimit:cut-in-last-4096-block:throw", "save_file:rlimit:cut-earlier:throw", "save_file:rlimit:fits:ok",
+        "procfs:read_all_fd:maps:>3pages:ok", "procfs:read_all_fopen:maps:>3pages:ok", "procfs:load_file:maps:*",
+        "procfs:read_all_fd:smaps:*", "procfs:read_all_fd:status:*", "procfs:read_all_fd:environ:*", "procfs:read_all_fd:cpuinfo:*",
+        "procfs:fgets_fopen:maps:*",
+        "read_all_fd:lying-st_size:under-reported:*", "read_all_fd:lying-st_size:over-reported:*", "read_all_file:lying-st_size:*",
+        "load_file:lying-st_size:under-reported:size-queried:*", "load_file:lying-st_size:over-reported:size-queried:*",
+        "load_file:lying-st_size:true-size:*:ok",
         "poll:final-size0:with-readd", "poll:final-size3:*", "poll:close_fd:*:1-closed",
     ],
     "exhaustive": {"quick": False, "thorough": False},
